@@ -377,6 +377,9 @@ type mdsCase struct {
 	Lattice bool // integer coordinates (exact squared distances)
 	Seed    uint64
 	EigDst  bool
+	// Bad != 0: one dissimilarity is NaN (1) or +Inf (2), so that the
+	// eigendecomposition fails; only the documented failure behaviour is checked.
+	Bad int `json:",omitempty"`
 }
 
 func checkMDS(c mdsCase) *vk.Failure {
@@ -409,10 +412,29 @@ func checkMDS(c mdsCase) *vk.Failure {
 	vk.NonTrivial("mds", nClass(n), d, c.Lattice, c.EigDst, c.Seed%256)
 	vk.Sample("mds", c)
 	ctx := fmt.Sprintf("n=%d d=%d lattice=%v seed=%d", n, d, c.Lattice, c.Seed)
+	if c.Bad != 0 && n >= 2 {
+		bad := math.NaN()
+		if c.Bad == 2 {
+			bad = math.Inf(1)
+		}
+		dis.SetSym(0, n-1, bad)
+		var fdst mat.Dense
+		var fk int
+		res := vk.Call(func() { fk, _ = mds.TorgersonScaling(&fdst, nil, dis) })
+		vk.Class(fmt.Sprintf("mds non-finite dissimilarity: %v k=%d", res.Outcome, fk))
+		// "If the scaling is not successful, dst will be empty upon return."
+		if res.Outcome == vk.Returned && fk == 0 && !fdst.IsEmpty() {
+			r, cc := fdst.Dims()
+			return vk.Failf("torgerson-failure-dst-not-empty", "dissimilarity (0,%d)=%v: k=0 (not successful) but dst is %dx%d, not empty %s", n-1, bad, r, cc, ctx)
+		}
+		return nil
+	}
 	var dst mat.Dense
 	var eigdst []float64
+	var eigbuf []float64
 	if c.EigDst {
-		eigdst = make([]float64, n)
+		// a slice with spare capacity inside a sentinel-filled buffer
+		eigdst, eigbuf = sliceView(n, 2)
 	}
 	var k int
 	var eig []float64
@@ -469,6 +491,9 @@ func checkMDS(c mdsCase) *vk.Failure {
 				return f
 			}
 		}
+		if ok, i := sliceBufIntact(eigbuf, n, 2); !ok {
+			return vk.Failf("torgerson-eigdst-parent-modified", "buffer element %d outside eigdst overwritten %s", i, ctx)
+		}
 		if k != pos {
 			return vk.Failf("torgerson-k", "k=%d but %d leading non-negative eigenvalues %v %s", k, pos, eig, ctx)
 		}
@@ -517,6 +542,7 @@ func TestMDS(t *testing.T) {
 			Lattice: rapid.Bool().Draw(t, "lattice"),
 			Seed:    rapid.Uint64().Draw(t, "seed"),
 			EigDst:  rapid.Bool().Draw(t, "eigdst"),
+			Bad:     rapid.SampledFrom([]int{0, 0, 0, 0, 0, 0, 0, 1, 2}).Draw(t, "bad"),
 		}
 	}, checkMDS)
 }
